@@ -63,6 +63,11 @@ LITS = {
     "f_ninf": ("xfloat", lambda: float("-inf"), "float('-inf')"),
     "f_nan": ("xfloat", lambda: float("nan"), "float('nan')"),
     "f_15": ("xfloat", lambda: 1.5, "1.5"),
+    # plain containers whose ORDER matters (seeded/C15_r4: written as a sorted pprint literal): dicts with keys in
+    # non-alphabetical insertion order, also nested
+    "d_bands": ("odict", lambda: {"young": 30, "adult": 65, "senior": 200}, "{'young': 30, 'adult': 65, 'senior': 200}"),
+    "d_nested": ("odict", lambda: {"z": {"b": 1, "a": 2}, "c": 3, "m": [3, 1, 2]}, "{'z': {'b': 1, 'a': 2}, 'c': 3, 'm': [3, 1, 2]}"),
+    "d_intkeys": ("odict", lambda: {10: "x", 2: "y", 7: "z"}, "{10: 'x', 2: 'y', 7: 'z'}"),
 }
 if hasattr(http, "HTTPMethod"):          # StrEnum, Python >= 3.11
     LITS["hm_get"] = ("senum", lambda: http.HTTPMethod.GET, "__import__('http').HTTPMethod.GET")
